@@ -312,16 +312,27 @@ impl Tzif {
             _ => get_local_record(db, idx - 1),
         };
 
-        if first == last {
-            return Ok(record_before(first).into());
-        }
-        let changes: Vec<OffsetChange> = (first..last)
+        let mut changes: Vec<OffsetChange> = (first..last)
             .map(|idx| OffsetChange {
                 epoch_seconds: times[idx].0,
                 before: record_before(idx).into(),
                 after: get_local_record(db, idx).into(),
             })
             .collect();
+        // After the last transition the POSIX tz string continues the table: its changes
+        // can lie within reach of the local value as well.
+        if let (Some(end), Some(posix_tz_string)) = (times.last(), self.posix_tz_string()) {
+            if let (true, Some(dst_variant)) = (last == times.len(), &posix_tz_string.dst_info) {
+                changes.extend(
+                    rule_changes_around(posix_tz_string, dst_variant, seconds.0)?
+                        .into_iter()
+                        .filter(|change| change.epoch_seconds > end.0),
+                );
+            }
+        }
+        if changes.is_empty() {
+            return Ok(record_before(first).into());
+        }
         Ok(resolve_local_seconds(seconds.0, &changes))
     }
 }
@@ -359,31 +370,40 @@ struct OffsetChange {
 /// Decides a wall-clock value (epoch seconds without an offset applied) against the offset
 /// changes that can apply to it, given in ascending order.
 ///
-/// Between the two wall-clock readings of a change the value is skipped (the offset grows)
-/// or repeated (the offset shrinks); otherwise it is read with the offset of the latest
-/// change it is not before.
+/// The changes divide the timeline into stretches of one local time each. The value belongs
+/// to every stretch that contains the instant reading it with the stretch's offset: none when
+/// it is skipped, two when it is repeated. A stretch of no length (two changes at the same
+/// second, e.g. the rule `0/0,J365/25` that zic writes for all-year daylight saving time)
+/// contains nothing.
 fn resolve_local_seconds(local_seconds: i64, changes: &[OffsetChange]) -> LocalTimeRecordResult {
-    for change in changes {
-        let diff = local_seconds.saturating_sub(change.epoch_seconds);
-        if offset_range(change.before.offset, change.after.offset).contains(&diff) {
-            return if change.before.offset < change.after.offset {
-                LocalTimeRecordResult::Empty
-            } else {
-                LocalTimeRecordResult::Ambiguous {
-                    std: change.after,
-                    dst: change.before,
-                }
-            };
+    let mut found: Vec<LocalTimeRecord> = Vec::new();
+    for idx in 0..=changes.len() {
+        // The stretch before change `idx` (after the last change for `idx == len`).
+        let Some(record) = (match idx {
+            0 => changes.first().map(|change| change.before),
+            _ => changes.get(idx - 1).map(|change| change.after),
+        }) else {
+            break;
+        };
+        let instant = local_seconds.saturating_sub(record.offset);
+        let starts_before = idx == 0 || changes[idx - 1].epoch_seconds <= instant;
+        let ends_after = changes
+            .get(idx)
+            .is_none_or(|change| instant < change.epoch_seconds);
+        if starts_before && ends_after {
+            found.push(record);
         }
     }
-    for change in changes.iter().rev() {
-        if local_seconds.saturating_sub(change.epoch_seconds) >= change.after.offset {
-            return change.after.into();
-        }
+    // NOTE: the result holds at most two records; of three or more instants (changes closer
+    // together than the offset changes by) the earliest and the latest are reported.
+    match (found.first(), found.last()) {
+        (Some(earliest), Some(latest)) if found.len() > 1 => LocalTimeRecordResult::Ambiguous {
+            std: *latest,
+            dst: *earliest,
+        },
+        (Some(record), _) => (*record).into(),
+        _ => LocalTimeRecordResult::Empty,
     }
-    changes
-        .first()
-        .map_or(LocalTimeRecordResult::Empty, |change| change.before.into())
 }
 
 /// The day of the year (counted from 0) on which a rule date of a POSIX tz string falls.
@@ -500,13 +520,6 @@ fn resolve_posix_tz_string(
     };
     let changes = rule_changes_around(posix_tz_string, dst_variant, seconds)?;
     Ok(resolve_local_seconds(seconds, &changes))
-}
-
-fn offset_range(offset_one: i64, offset_two: i64) -> core::ops::Range<i64> {
-    if offset_one < offset_two {
-        return offset_one..offset_two;
-    }
-    offset_two..offset_one
 }
 
 #[derive(Debug, Default)]
